@@ -73,6 +73,7 @@ def gen_history(rng, nops):
                 lines.append(f"rd {v}")   # lets the oracle know whether the mark hits a live string
             lines.append(f"mk {v}")
         elif op == "sw":
+            lines.append("stat")      # tells the oracle the table length: sweep windows become exact
             lines.append(f"sw {rng.pick([0, 1, 1, 2, 3, 5, 10, 64, 10000, 4294967295])}")
         elif op == "rd" and hs:
             lines.append(f"rd {rng.pick(hs)}")
@@ -133,6 +134,9 @@ def oracle(lines, impl):
     last_mark, created, eff_sweeps = {}, {}, []
     unmarked = set()
     last_read = {}
+    # precise sweep-window tracking (when the table length is known from a `stat` answer and no
+    # untracked allocation happened since): which slots each incremental sweep slice passes over
+    tlen, sidx, pass_log, imprecise = 0, 0, {}, []
     for i, l in enumerate(lines):
         t = l.split(" ")
         a = impl[i] if i < len(impl) else "<missing>"
@@ -140,11 +144,14 @@ def oracle(lines, impl):
         if op == "reset":
             src, hid, readable, protected, dead_ids = {}, {}, {}, set(), set()
             last_mark, created, eff_sweeps, unmarked = {}, {}, [], set()
+            tlen, sidx, pass_log, imprecise = 0, 0, {}, []
         elif op in ("as", "st", "am", "ams") and a == "panic":
             bad.append((i, f"{op} panicked inside the heap (an internal `expect`/index failed: the intern tables and the slot table disagree)"))
         elif op in ("as", "st"):
             v = t[1]; src[v] = unhex(t[2]); created[v] = i; last_mark.pop(v, None)
             hid[v] = a
+            if a.startswith("r:") and tlen is not None:
+                tlen = max(tlen, int(a[2:]) + 1)
             if a.startswith("r:") and int(a[2:]) in dead_ids:
                 bad.append((i, f"re-allocation returned the reclaimed handle {a}"))
             if a.startswith("i:") != (len(src[v]) <= 15):
@@ -158,8 +165,19 @@ def oracle(lines, impl):
                     if w in last_mark: last_mark[v] = last_mark[w]
                     created[v] = min(created[v], created.get(w, i))
         elif op in ("at", "tca"):
+            if op == "tca":
+                tlen = None      # names issued by a TempPStrCounter get their slots only at sync time
+            elif a.startswith("r:") and tlen is not None:
+                tlen = max(tlen, int(a[2:]) + 1)
             if a != "skip":
                 hid[t[1]] = a; src[t[1]] = unhex(a[2:]) if a.startswith("i:") else None
+        elif op in ("ams", "gm", "tc", "tcs"):
+            tlen = None      # strings / slots allocated without reporting their ids: length unknown until the next `stat`
+        elif op == "stat":
+            try:
+                tlen = int(a.split(" ")[0])
+            except ValueError:
+                pass
         elif op == "am" and a.startswith("m:"):
             for v in t[1:]:
                 # protected only if the read issued just before this op succeeded
@@ -184,6 +202,14 @@ def oracle(lines, impl):
                 bad.append((i, f"sweep({t[1]}) panicked"))
             elif not unmarked:
                 eff_sweeps.append(i)
+                w = int(t[1])
+                if tlen is None or sidx is None:
+                    imprecise.append(i); sidx = None
+                else:
+                    end = min(sidx + w, tlen)
+                    for n in range(sidx, end):
+                        pass_log.setdefault(n, []).append(i)
+                    sidx = 0 if sidx + w >= tlen else sidx + w
         elif op == "rd" and t[1] in hid:
             v = t[1]
             last_read[v] = i
@@ -200,6 +226,11 @@ def oracle(lines, impl):
                         bad.append((i, f"permanent / module-reference string behind {v} ({hid[v]}) was reclaimed"))
                     elif n < need:
                         bad.append((i, f"{v} ({hid[v]}) reclaimed after only {n} effective sweep(s) since its last mark/creation"))
+                    elif hid[v].startswith("r:") and not any(k > since for k in imprecise):
+                        # every sweep since the mark had a known window: count the slices that covered THIS slot
+                        np_ = sum(1 for k in pass_log.get(int(hid[v][2:]), []) if k > since)
+                        if np_ < need:
+                            bad.append((i, f"{v} ({hid[v]}) reclaimed although the sweeper passed over its slot only {np_} time(s) since its last mark/creation ({n} sweep slices ran, the others covered other slots)"))
                     if hid[v].startswith("i:"):
                         bad.append((i, f"inline handle {v} unreadable"))
                 readable[v] = False
@@ -237,6 +268,8 @@ def densify(lines):
         t = l.split(" ")
         if t[0] in ("mk", "am"):
             out += [f"rd {v}" for v in t[1:]]
+        if t[0] == "sw" and (not out or out[-1] != "stat"):
+            out.append("stat")
         out.append(l)
         if t[0] in ("as", "st", "at", "tca") and t[1] not in hs:
             hs.append(t[1])
@@ -267,6 +300,18 @@ def probe(lines):
             ps += [f"rd {v}", f"am {v}", f"rd {v}"]
             byname[v] = sx
         return ps
+
+    def static_probes():
+        # promotion path: every string that is around as a temporary is allocated again as a STATIC
+        # string (alloc_str_for_test -> the promote branch), used as a module-reference part, and must
+        # then survive two full sweeps
+        ps, ys = [], []
+        for sx in strs:
+            v = f"y{z[0]}"; z[0] += 1
+            ps += [f"st {v} {sx}", f"rd {v}", f"am {v}", f"rd {v}"]
+            ys.append(v)
+        ps += ["stat", "sw 4294967295", "stat", "sw 4294967295"] + [f"rd {v}" for v in ys]
+        return ps
     for l in densify(lines):
         t = l.split(" ")
         out.append(l)
@@ -276,7 +321,7 @@ def probe(lines):
                 strs.append(t[2])
         if t[0] == "sw":
             out += probes()
-    return out + probes()
+    return out + probes() + static_probes()
 
 
 def check_lines(ctx, lines, label):
@@ -311,6 +356,14 @@ def check_lines(ctx, lines, label):
                 small = probe(["reset"] + [x for x in common.ddmin(h, fails_probe) if x != "reset"])
             else:
                 small = ["reset"] + [x for x in common.ddmin(h, fails) if x != "reset"]
+                # the shrunk history may show the property-level failure once it is observed densely
+                # (shrinking by "tie or oracle" can move to a smaller manifestation of the same cause)
+                for widen in (densify, probe):
+                    c = widen(small)
+                    i3, _ = common.run_pair("C17", c, resolve)
+                    if oracle(c, i3):
+                        small = c
+                        break
             i2, m2 = common.run_pair("C17", small, resolve)
             o2 = oracle(small, i2)
             payload = {"protocol": "heapops", "label": label, "ops": small, "impl": i2, "model": m2,
